@@ -81,11 +81,15 @@ func (e *Effects) Writes() []Write {
 						out = append(out, w)
 					}
 					// mutating methods of synchronised containers are writes to the receiver
-					if cal := in.Call.StaticCallee(); cal != nil && cal.Signature.Recv() != nil && len(in.Call.Args) > 0 {
-						if pk := cal.Package(); pk != nil && (pk.Pkg.Path() == "sync" || pk.Pkg.Path() == "sync/atomic") {
-							switch cal.Name() {
+					if cal := in.Call.StaticCallee(); cal != nil && len(in.Call.Args) > 0 {
+						org := cal
+						if o := cal.Origin(); o != nil {
+							org = o // instances of generic types (atomic.Pointer[T]) carry no package and no receiver of their own
+						}
+						if pk := org.Package(); pk != nil && org.Signature.Recv() != nil && (pk.Pkg.Path() == "sync" || pk.Pkg.Path() == "sync/atomic") {
+							switch org.Name() {
 							case "Store", "LoadOrStore", "LoadAndDelete", "Delete", "Swap", "CompareAndSwap", "CompareAndDelete", "Add", "Clear", "Or", "And":
-								w := Write{Instr: in, Fn: f, Addr: in.Call.Args[0], What: "synchronised container (" + cal.Name() + ")"}
+								w := Write{Instr: in, Fn: f, Addr: in.Call.Args[0], What: "synchronised container (" + org.Name() + ")"}
 								w.Roots = e.provenance(baseOf(in.Call.Args[0]), f, 0, map[ssa.Value]bool{})
 								out = append(out, w)
 							}
